@@ -362,7 +362,8 @@ try:
     for mount in (None, '/static'):
         comp = S.Static(path=mount, docroot=root, dirlisting=True)
         for path in ['/', '/index.html', '/sub/a.txt', '/../secret.txt', '/../www2/s.txt', '/..', '/../', '/../www2',
-                     '/%2e%2e/secret.txt', '/sub/../../secret.txt', '/..%2fsecret.txt', '//../secret.txt']:
+                     '/%2e%2e/secret.txt', '/sub/../../secret.txt', '/..%2fsecret.txt', '//../secret.txt',
+                     '/..\\\\secret.txt', '/..%5Csecret.txt', '/..%5cwww2/s.txt', '/sub\\\\..\\\\..\\\\secret.txt', '/..\\\\', '/..%5C']:
             req = Obj(); req.path = (mount or '') + path
             res = Obj(); res.cookie = {}
             ev = Obj(); ev.stop = lambda: None
@@ -372,6 +373,7 @@ try:
             except Exception as e:
                 print('exception', path, repr(e))
             for loc in served:
+                loc = os.path.normpath(loc)          # what the operating system will open
                 if not (loc == root or loc.startswith(root + os.sep)):
                     bad.append((mount, req.path, loc))
     for b in bad: print('served/listed outside docroot %r: mount=%r path=%r location=%r' % (root, b[0], b[1], b[2]))
@@ -385,6 +387,9 @@ SPECS.append(FucSpec(
     'C16', 'circuits/web/dispatchers/static.py', 'Static._on_request', st_setup2, st_post, replay=st_replay,
     fields={'path': Opt(Str), 'docroot': Str, 'defaults': List(Str), 'dirlisting': Bool},
     calls=STATIC_CALLS,
+    # os.sep / os.path.sep / os.altsep as on the platform the checks run on (POSIX; listed with the os.path assumptions)
+    env={'os.sep': VStr('/'), 'os.path.sep': VStr('/'), 'os.altsep': NONE, 'os.path.altsep': NONE, 'os.pardir': VStr('..'), 'os.curdir': VStr('.')},
+    trusted=['os.sep = "/" , os.altsep = None (POSIX platform constants)'],
     loops={0: LoopSpec(inv=[('true', lambda I: z3.BoolVal(True))]),
            1: LoopSpec(inv=[('true', lambda I: z3.BoolVal(True))], kinds={'listing': List(Str)})},
     cover=['serve_file', 'listing', 'return'],
